@@ -344,7 +344,7 @@ func runC19(c *core.Case) {
 		// the class of a request is decided by its path alone; a query string that
 		// happens to look like a configured pattern changes nothing
 		path := map[string][]string{
-			"plain":       {"/items/" + fmt.Sprint(i), "/items/" + fmt.Sprint(i) + "?thumb=a.png", "/items/" + fmt.Sprint(i) + "?next=x.fwd", "/items/" + fmt.Sprint(i) + "?u=/static/x&v=/forward/y",
+			"plain": {"/items/" + fmt.Sprint(i), "/items/" + fmt.Sprint(i) + "?thumb=a.png", "/items/" + fmt.Sprint(i) + "?next=x.fwd", "/items/" + fmt.Sprint(i) + "?u=/static/x&v=/forward/y",
 				// paths that only END like something a start-anchored pattern matches
 				"/api/static/" + fmt.Sprint(i), "/v2/forward/" + fmt.Sprint(i), "/x/static/app.js"},
 			"passthrough": {"/static/app.js", "/img/" + fmt.Sprint(i) + ".png", "/static/app.js?v=3"},
